@@ -1892,8 +1892,10 @@ func (c *Client) doSetup(
 	switch protocol {
 	case ProtocolUDP, ProtocolUDPMulticast:
 		if thRes.Protocol == headers.TransportProtocolTCP {
-			// switch transport automatically
-			if c.setuppedTransport == nil && c.Protocol == nil {
+			// switch transport automatically.
+			// this is not possible when recording, since the session
+			// would have to be announced again.
+			if c.setuppedTransport == nil && c.Protocol == nil && c.state != clientStatePreRecord {
 				c.OnTransportSwitch(liberrors.ErrClientSwitchToTCPDueToServer{})
 
 				c.baseURL = baseURL
